@@ -33,7 +33,7 @@ ASSUMPTIONS = [
     "reference evaluator in bvm/gen/tagexpr.py",
 ]
 REQUIRED = {"v1.meaning": {"quick": 3000, "thorough": 50000}, "v1.autodetect_meaning": {"quick": 3000, "thorough": 50000},
-            "v2.autodetect_meaning": {"quick": 2000, "thorough": 50000}, "mixed.rejected": {"quick": 300, "thorough": 5000},
+            "v2.autodetect_meaning": {"quick": 2000, "thorough": 50000}, "mixed.rejected": {"quick": 300, "thorough": 5000}, "mixed.rejected_by_the_program": {"quick": 60, "thorough": 3000},
             "history.rejected_again": {"quick": 300, "thorough": 5000},
             "history.config_after_other_protocol": {"quick": 200, "thorough": 5000},
             "v1.config_file_meaning": {"quick": 80, "thorough": 2000}, "v1.config_kwarg_meaning": {"quick": 200, "thorough": 4000}}
@@ -207,6 +207,52 @@ def check_mixed(lab, mon, text, as_list=False, monitor="mixed.rejected", history
         mon.check(monitor, True)
     except Exception as ex:
         mon.check(monitor, False, dict(case=case, outcome="other exception", error=repr(ex)))
+
+
+def check_mixed_program(lab, mon, rng, texts):
+    """The program's answer to mixed text: behave.__main__.main() prints the tag-expression error and returns a failure status."""
+    import io
+    import os
+    import shutil
+    import sys
+    import tempfile
+    import behave.__main__ as bmain
+    text = rng.choice(texts)
+    args = ["--tags=" + text] if rng.random() < 0.7 else ["--dry-run", "--tags=" + text]      # (a separate word starting with '-' would be an option)
+    case = {"kind": "mixed-program", "args": args}
+    mon.case(case, True)
+    cwd, home = os.getcwd(), os.environ.get("HOME")
+    root = tempfile.mkdtemp(prefix="bvm-c08-")
+    out, err = sys.stdout, sys.stderr
+    saved = getattr(lab.P, "_current", None)
+    buf = io.StringIO()
+    try:
+        os.environ["HOME"] = root
+        os.chdir(root)
+        sys.stdout = sys.stderr = buf
+        try:
+            rc = bmain.main(list(args))
+        except SystemExit as ex:
+            rc = ex.code
+        except lab.Error as ex:
+            rc = "raised %r" % ex
+        except Exception as ex:
+            rc = "other exception %r" % ex
+    finally:
+        sys.stdout, sys.stderr = out, err
+        os.chdir(cwd)
+        if home is None:
+            os.environ.pop("HOME", None)
+        else:
+            os.environ["HOME"] = home
+        shutil.rmtree(root, ignore_errors=True)
+        if saved is None:
+            lab.P.use(lab.P.DEFAULT)
+        else:
+            lab.P.use(saved)
+    ok = (isinstance(rc, int) and not isinstance(rc, bool) and rc != 0) or (isinstance(rc, str) and rc.startswith("raised"))
+    mon.check("mixed.rejected_by_the_program", ok and "TagExpressionError" in buf.getvalue() + str(rc),
+              lambda: dict(case=case, returned=rc, output=buf.getvalue()[-400:]))
 
 
 def parse_history(lab, mon, rng, ast, mixed):
@@ -436,9 +482,14 @@ def run(spec, mon):
     for i, ast in enumerate(trees):
         if i % of == shard:
             check_v2_auto(lab, mon, ast, rng)
-    for _ in range(60 if tier == "quick" else 3000):
+    for k in range(60 if tier == "quick" else 3000):
         ast = T.random_tree(rng, c07.RANDOM_OPERANDS, rng.choice([1, 2, 3]))
         check_v2_auto(lab, mon, ast, rng)
+        for label in sorted(c07.NAME_CLASSES):
+            # pure new-style text (at least one operator word) over unusual tag names, escaped where the new dialect demands it
+            c07.check_name_class(lab, mon, rng, label, protocol=lab.P.AUTO_DETECT, monitor="v2.autodetect_meaning")
+        if k % 6 == 0:
+            check_mixed_program(lab, mon, rng, mixed_texts(rng, ast))
         # list form whose argument starts with 'not' and has a top-level 'or': the arguments are and-ed as wholes
         x, y, z = [T.operand(o) for o in rng.sample(c07.OPERANDS, 3)]
         neg_or = ["or", ["not", x], y] if rng.random() < 0.7 else ["or", ["not", x], ["and", y, z]]
